@@ -94,7 +94,7 @@ def altSpec (names : List String) (parse : String → Parsed) : Spec → List St
     | none => if items.isEmpty then ["ValueError"] else []
 
 /-- request: {"names": [...], "form": "str"|"list"|"dict", "spec": ..., "parses": [[string, parsed], ...]} -/
-def handle (j : Json) : Json :=
+def handleOne (j : Json) : Json :=
   let names := strs j "names"
   let tbl? : Option (List (String × Parsed)) := (jarr j "parses").mapM (fun kv =>
     match asArr kv with
@@ -106,5 +106,12 @@ def handle (j : Json) : Json :=
     | .ok (A, b) => Json.mkObj [("A", jlist (A.map (fun r => jstrs (r.map ratStr)))), ("b", jstrs (b.map ratStr))]
     | .error e => Json.mkObj [("error", Json.str e.cls), ("alt", jstrs (altSpec names (parseFn tbl) spec))]
   | _, _ => jerr "unmodelled"
+
+/-- one request, or a history {"steps": [request, ...]}: the model is a pure function of
+(names, spec, parse), so a history is answered step by step, independently -/
+def handle (j : Json) : Json :=
+  match j.getObjVal? "steps" with
+  | .ok (.arr steps) => Json.mkObj [("steps", jlist (steps.toList.map handleOne))]
+  | _ => handleOne j
 
 end FormulaicVerif.Engines.C16
